@@ -197,6 +197,9 @@ var poolSrc = []string{
 	"{|| 1}", "{|x| x}", "{|x, y| [x, y]}", "{|x, y, z| x}", "{|x| raise ValueErr.new(\"f\")}", "{|x| nil}", "{|a: 1| a}", "m{|x| self}", "<{|i| yield i if i < 3; recur(i + 1)}>", "<{|i| yield i}>.new(0)", "<{|i| raise Err.new(\"it\")}>.new(0)", "[1, 2]._iter",
 	"%{|1| 'a, |x| x}", "<>", "1.try", "nil.try", "1.try.{|x| x / 0}", "1.try.{|x| x / 0}.err", "_",
 	"Int", "Float", "Str", "Arr", "Obj", "BaseObj", "Map", "Range", "Nil", "Func", "Iter", "Err", "ValueErr", "FileNotFoundErr", "StopIterErr", "Kernel", "JSON", "Either", "EitherVal", "Iterable", "Comparable", "Num", "Wrappable", "Diamond", "Match",
+	// text shapes: long / multi-byte / malformed-document / pattern-like strings (byte length and character count differ)
+	`"` + strings.Repeat("日", 30) + `"`, `"{\"キー\": [1, 2, \"` + strings.Repeat("値", 25) + `\"],}"`, `"` + strings.Repeat("a", 70) + `"`, `"` + strings.Repeat("😀", 40) + `"`, `"ab😀"`, `"["`, `"(?<n"`, `"\\U"`, `"%s %d"`, `"a\x00b"`,
+	`"` + strings.Repeat("x", 5000) + `"`, `"[" * 200`, `"{\"a\": " * 50`,
 	"Int.bear", "Int.bear.new(3)", "Str.bear.new(\"q\")", "Arr.bear.new([1])", "Obj.bear", "BaseObj.bear", "BaseObj.bear({a: 1})", "1.bear", "\"a\".bear", "[1].bear", "nil.bear", "{a: 1}.bear", "(1:2).bear", "Err.new(\"e\").try", "{|x| x}.bear",
 }
 
